@@ -93,6 +93,13 @@ CHECKS.update({
             "Trusted: TLC, the exported language_order as the library's priority order; the independence of a language's outcome from the other languages in the list is C03's subject.",
             "DESIGN.md 4 C13"),
 })
+CHECKS.update({
+    "C02": ("exploration",
+            "model-guided exploration: strings built along the token alphabets of the TLA+ specification, mutated real date strings, soups and arbitrary Unicode x valid settings pool with boundary values x language/locale/region choices x date_formats, plus invalid settings x arbitrary strings; every recorded call judged by TLC (T_C02.tla); the exception flow of the pipeline (stages, may-raise and catch sets, Pipeline.tla / P_C02.tla) model-checked with TLC",
+            "TLC checks on the exception-flow model that only documented classes can escape and that an invalid setting is rejected before any stage looks at the string (the pinned handlers are run too and must be refuted). Quick executes about 20k generated calls (thorough 1M) through dateparser.parse and DateDataParser.get_date_data with 40 (120) settings dicts covering every documented key and reference times at both ends of the datetime range, naive and aware, plus directed boundary inputs; TLC checks for valid arguments that no exception escapes, the period is one of the five and nothing recognised means date_obj and locale both None, and for each of 30 invalid settings that SettingValidationError / TypeError is raised whatever the string is.",
+            "The quantifier over all strings is explored, not exhausted. Timezone names are drawn from the resolvable ones; languages, locales and formats are valid in the valid cases.",
+            "DESIGN.md 4 C02"),
+})
 NOT_YET = {}
 
 def main():
